@@ -798,14 +798,16 @@ def strip_generics_name(s):
 
 
 def rule_clamp_first(ctx):
-    """in the blend kernels a value that is conditionally clamped is not used before the clamp"""
+    """in the blend kernels a value that is conditionally clamped is not used unclamped"""
     from ..mirutil import Defs, find_path_edges
     rid = "R-CLAMP-FIRST"
-    ctx.rule(rid, "blend_single: where a sample or alpha value is re-assigned `v = v.clamp(0.0, 1.0)` under the frame's clamp flag, "
-                  "every other read of v in the same pixel iteration comes after that re-assignment: there is no path from a block "
-                  "that reads v to the block of the clamp that avoids the blocks (re)defining v (the loads at the top of the "
-                  "iteration).  A term computed from v above the `if clamp` - a hoisted `1.0 - alpha` - keeps the unclamped value, "
-                  "so the frame is blended with weights outside [0, 1] exactly when clamping was asked for")
+    ctx.rule(rid, "blend_single (and the helpers / closures of jxl_render::blend): where a sample or alpha value v is clamped to [0, 1] under "
+                  "the frame's clamp flag, nothing else reads the unclamped v in the same pixel iteration.  Two shapes are recognised: "
+                  "(a) in place, `v = v.clamp(0.0, 1.0)` inside `if clamp`: there is no path from a block that reads v to the clamp that "
+                  "avoids the blocks (re)defining v; (b) into a new value, `let c = if clamp { v.clamp(0.0, 1.0) } else { v }`: the only "
+                  "reads of v are the clamp's argument and the copy into c.  A term computed from v above the `if clamp` - a hoisted "
+                  "`1.0 - alpha` - keeps the unclamped value, so the frame is blended with weights outside [0, 1] exactly when "
+                  "clamping was asked for")
     cr = ctx.prog.crate("jxl_render")
     fs = [g for g in cr.fn_list if g.path.startswith("jxl_render::blend::") and g.kind in ("Fn", "AssocFn", "Closure")]
     sites = 0
@@ -817,57 +819,58 @@ def rule_clamp_first(ctx):
                 continue
             if defs is None:
                 defs = Defs(f)
-            # the argument is a copy of the named local, the result goes back into it (directly or through one temp)
             src = op_local(ct[2][0])
             d = defs.single(src) if src is not None else None
             v = None
-            if d and d[2] == "assign" and d[3][2][0] == "use" and op_local(d[3][2][1]) is not None:
+            if d and d[2] == "assign" and d[3][2][0] == "use" and op_place(d[3][2][1]) is not None and len(op_place(d[3][2][1])) == 1:
                 v = op_local(d[3][2][1])
-            if v is None:
+            if v is None or v <= f.argc and f.kind != "Closure":
                 continue
             dst = ct[3][0]
-            back = dst == v or any(st[0] == "=" and st[1] == [v] and st[2][0] == "use" and op_local(st[2][1]) == dst
-                                   for blk in f.blocks for st in blk[0])
-            if not back:
-                continue
+            in_place = dst == v or any(st[0] == "=" and st[1] == [v] and st[2][0] == "use" and op_local(st[2][1]) == dst
+                                       for blk in f.blocks for st in blk[0])
             sites += 1
             ctx.seen(f)
             defblocks = {x[0] for x in defs.of(v) if not f.is_cleanup(x[0])} - {cb}
-            readers = set()
+            readers = []
             for b, blk in enumerate(f.blocks):
-                if blk[2] or b == cb:
+                if blk[2]:
                     continue
                 for st in blk[0]:
                     if st[0] != "=":
                         continue
                     rv = st[2]
-                    ops = [rv[1]] if rv[0] == "use" else ([rv[2]] if rv[0] in ("cast", "un") else ([rv[2], rv[3]] if rv[0] == "bin" else (list(rv[2]) if rv[0] == "agg" else [])))
                     if rv[0] == "ref" and rv[2] == [v] and rv[1] == "mut":
                         defblocks.add(b)        # handed out mutably (mem::swap): a redefinition, not a read
                         continue
+                    ops = [rv[1]] if rv[0] == "use" else ([rv[2]] if rv[0] in ("cast", "un") else ([rv[2], rv[3]] if rv[0] == "bin" else (list(rv[2]) if rv[0] == "agg" else [])))
                     if any(op_local(o) == v and op_place(o) == [v] for o in ops) or (rv[0] == "ref" and rv[2] == [v]):
-                        # the copy that feeds the clamp itself lives in the clamp's predecessor block at most; it is `src`
                         if st[1] == [src]:
-                            continue
-                        readers.add(b)
+                            continue            # the copy that feeds the clamp
+                        if not in_place and st[1] == [dst] and rv[0] == "use":
+                            continue            # shape (b): the unclamped arm of the same value
+                        readers.append((b, st[3]))
                 t = blk[1]
-                if t[0] == "call" and any(op_local(a) == v and op_place(a) == [v] for a in t[2]):
-                    readers.add(b)
+                if t[0] == "call" and b != cb and any(op_local(a) == v and op_place(a) == [v] for a in t[2]):
+                    readers.append((b, t[-2]))
             early = None
-            for b in sorted(readers):
-                if b in defblocks:
-                    continue
-                if find_path_edges(f, [b], lambda x: x == cb, avoid_block=lambda x: x in defblocks and x != b) is not None:
-                    early = b
-                    break
+            if in_place:
+                for b, pos in sorted(readers):
+                    if b in defblocks or b == cb:
+                        continue
+                    if find_path_edges(f, [b], lambda x: x == cb, avoid_block=lambda x: x in defblocks and x != b) is not None:
+                        early = pos
+                        break
+            elif readers:
+                early = sorted(readers)[0][1]
+            name = f.local_name(v) or "_%d" % v
             key = "%s|%s" % (f.path, f.local_name(v) or "_")
             if early is None:
-                ctx.ok(rid, key + "#%d" % sites, "no read of the value precedes its clamp within an iteration", nontrivial=True, fn=f)
+                ctx.ok(rid, key + "#%d" % sites, "the unclamped value is read nowhere else within an iteration (%s)" % ("in place" if in_place else "new value"),
+                       nontrivial=True, fn=f)
             else:
-                ctx.bad(rid, key + "|read-before-clamp", "`%s` is read (line %d) before `%s = %s.clamp(0.0, 1.0)`: what is computed there keeps the "
-                        "unclamped value" % (f.local_name(v) or "_%d" % v, pos_line(f.term_pos(early)) if not f.stmts(early) else
-                                             pos_line([st for st in f.stmts(early) if st[0] == "="][0][3]), f.local_name(v) or "_", f.local_name(v) or "_"),
-                        fn=f, pos=ct[-2])
+                ctx.bad(rid, key + "|read-before-clamp", "`%s` is also read unclamped (line %d) although it is clamped to [0, 1] under the clamp flag "
+                        "(line %d): what is computed there keeps the unclamped value" % (name, pos_line(early), pos_line(ct[-2])), fn=f, pos=ct[-2])
     ctx.count(rid + ".clamp-sites", sites)
     ctx.floor(rid + ".clamp-sites", 4)
 
